@@ -14,11 +14,15 @@ import (
 func defaultHasher[T comparable]() func(T, uint64) uint64 {
 	var zero T
 
-	if reflect.TypeOf(&zero).Elem().Kind() == reflect.Interface {
+	if t := reflect.TypeOf(&zero).Elem(); t.Kind() == reflect.Interface {
+		// Hash the interface value itself with the hash function of the
+		// interface type T, like the built-in map does: the data word of an
+		// interface is not always a pointer to the value (pointer-shaped
+		// dynamic types are stored in it directly) and a nil key has no
+		// dynamic type at all.
+		typ := uintptr((*iface)(unsafe.Pointer(&t)).word)
 		return func(value T, seed uint64) uint64 {
-			iValue := any(value)
-			i := (*iface)(unsafe.Pointer(&iValue))
-			return runtime_typehash64(i.typ, i.word, seed)
+			return runtime_typehash64(typ, unsafe.Pointer(&value), seed)
 		}
 	} else {
 		var iZero any = zero
